@@ -145,6 +145,23 @@ def _body(repo, rep):
     gz = [i for i in walk_no_nested(gen) if isinstance(i, ast.If) and norm(i.test) == "fragment_length == 0"]
     okg = len(gz) == 1 and [norm(s) for s in gz[0].body] == ["yield bytestream", "return"]
     rep.check(okg, "overhead", f"{FQ}._generate_pdv_fragments", "fragment_length == 0 -> yield bytestream; return", "unlimited length must yield the whole stream once", mod=mod, node=gen)
+    # every fragment the generator emits for a limited maximum is sized by the payload (maximum - k): a yield
+    # the overhead subtraction does not dominate (other than the unlimited case) is measured against the
+    # peer's maximum itself, while encode_msg counts the fragments by the payload size
+    from ..cfg import CFG as _CFG
+    gcfg = _CFG(gen)
+    adj_nodes = [gcfg.node_of(enclosing(n, (ast.stmt,)) if not isinstance(n, ast.stmt) else n) for f_, n, _, kind in sites if f_ is gen and kind == "sub"]
+    adj_nodes = [a for a in adj_nodes if a is not None]
+    n_y = 0
+    for y in [y for y in walk_no_nested(gen) if isinstance(y, (ast.Yield, ast.YieldFrom))]:
+        st_y = enclosing(y, (ast.stmt,))
+        if gz and any(x is st_y for b in gz[0].body for x in ast.walk(b)):
+            continue
+        ny = gcfg.node_of(st_y)
+        n_y += 1
+        dominated = ny is not None and any(gcfg.dominates(a, ny) for a in adj_nodes)
+        rep.check(dominated, "overhead-count", f"{FQ}._generate_pdv_fragments", st_y, "this fragment is emitted on a path that has not taken the PDV overhead off the maximum: its size (or the decision to emit it) is measured against the peer's maximum, while encode_msg counts ceil(length / (maximum - k)) fragments - for lengths between the payload size and the maximum the generator yields one fragment fewer than encode_msg asks for, and the fragment flagged 'last' is never sent", mod=mod, node=y)
+    rep.floor("generator yields sized by the payload", n_y, 1)
     rej = None
     for i in walk_no_nested(gen):
         if isinstance(i, ast.If) and isinstance(i.test, ast.Compare) and len(i.test.ops) == 2 and norm(i.test.comparators[0]) == "fragment_length":
